@@ -509,6 +509,48 @@ def check_blkopt(ck, prog):
     ck.floor("C02-BLKOPT", 4, "obligations")
 
 
+def check_uncomp_fallback(ck, prog):
+    """(a) block_encode_uncompressed() writes a Block Header that names LZMA2 only (its own local filter array), whatever
+    chain the caller asked for: the caller's filter pointer is restored only after the header was encoded.
+    (b) An LZMA2 chunk never exceeds 2 MiB of uncompressed data: the margin kept before the limit is the length of the
+    longest possible symbol (mf->match_len_max), not the nice length."""
+    ck.rule("C02-FALLBACK", "uncompressed-chunk fallback: header encoded with the local LZMA2-only chain; LZMA2 chunk limit "
+                            "margin is match_len_max")
+    f = prog.fn("block_encode_uncompressed", "block_buffer_encoder.c")
+    ck.saw_function(f)
+    enc = [(b, i) for b, i, e in f.iter_elems() for c in ex.calls(e, into_refs=True) if c.get("fn") == "lzma_block_header_encode"]
+    rest = [(b, i, n) for b, i, e in f.iter_elems() for (l, r, op, n) in ex.writes(e)
+            if ex.show(l) == "block->filters" and r is not None and ex.show(r) == "filters_orig"]
+    sets = [(b, i) for b, i, e in f.iter_elems() for (l, r, op, n) in ex.writes(e)
+            if ex.show(l) == "block->filters" and r is not None and ex.show(r) == "filters"]
+    if not enc or not rest or not sets:
+        raise AnalysisBroken("block_encode_uncompressed: header encode / filter pointer stores not found")
+    eb, ei = enc[0]
+    bad = None
+    for (b, i, n) in rest:
+        if (b.id == eb.id and i < ei) or (b.id != eb.id and eb.id in cfg.reachable(f, cfg.succs(f, b.id))):
+            bad = ex.line(n)
+    ck.ob("C02-FALLBACK", "header-uses-local-chain", bad is None, common.where(f),
+          "block_encode_uncompressed: block->filters points to the local LZMA2-only array while lzma_block_header_encode() "
+          "runs; the caller's pointer is restored afterwards (and on the error returns)" if bad is None else
+          "block_encode_uncompressed(): block->filters is restored to the caller's chain at line %s, before "
+          "lzma_block_header_encode(): the Block Header then lists the caller's filters (e.g. x86 + LZMA2) over data that "
+          "is stored as plain LZMA2 uncompressed chunks" % bad, key="FALLBACK:header-uses-local-chain")
+    g = prog.fn("lzma2_encode", "lzma2_encoder.c")
+    ck.saw_function(g)
+    conds = [ex.show(b.term["cond"]) for b in g.blocks.values() if b.term and "cond" in b.term and
+             ex.show(b.term["cond"]).startswith("left <")]
+    lim = [ex.show(r) for b, i, e in g.iter_elems() for (l, r, op, n) in ex.writes(e)
+           if ex.show(l) == "limit" and r is not None and "left" in ex.show(r)]
+    ok = conds == ["left < mf->match_len_max"] and len(lim) == 1 and lim[0].endswith("- mf->match_len_max")
+    ck.ob("C02-FALLBACK", "chunk-limit-margin", ok, common.where(g),
+          "lzma2_encode: the chunk is closed when fewer than mf->match_len_max bytes of its 2 MiB remain (%s; limit = %s)" % (
+              conds, lim) if ok else
+          "lzma2_encode(): the margin before the 2 MiB chunk limit is not mf->match_len_max (%s; limit = %s): one long "
+          "match can push the uncompressed size of the chunk past 2^21 and the size field overflows into the control byte" % (
+              conds, lim), key="FALLBACK:chunk-limit-margin")
+
+
 def run(ck):
     ck.explanation = (
         "Layout facts (constant-folded offsets, lengths, CRC ranges, flag bits, field order, byte order) are "
@@ -525,3 +567,4 @@ def run(ck):
     check_meta(ck, prog)
     check_chk(ck, prog)
     check_blkopt(ck, prog)
+    check_uncomp_fallback(ck, prog)
